@@ -51,6 +51,12 @@ def check(ctx):
         r11_4_loop(ctx, m, L)
         r11_2(ctx, m, L)
         r11_5_group(ctx, m, L)
+    ctx.run(r11_8, m, _independent=True)
+    # a healthy run must not be given up: the exit-code test after the joins (C13's rule) reads codes of workers that have ended
+    from . import c13 as _c13
+
+    for L in m.loops:
+        ctx.run(_c13.r13_4, m, L, _independent=True)
     ctx.run(r11_3, m)
     ctx.run(r11_6, m)
     ctx.run(r11_4_worker, m)
@@ -589,6 +595,59 @@ def r11_6(ctx, m):
         ctx.check(bad is None, "R11.6", L.where(), "after a timed-out read the parent keeps waiting while any worker is alive and gives up only when none is", key_of(pf, f"wait-while-alive:{norm(L.node.test)}:{bad[1][:40] if bad else ''}"), handler_paths=n, **({"path": bad[0].show(), "why": bad[1]} if bad else {}))
 
 
+def _parent_adds_newline(m):
+    """every `output.write(...)` of a ranked item in the parent appends a newline to the item's text (`write(x.seq + "\n")`)"""
+    pf = m.parent
+    ws = [c for c in walk_own(pf.node) if isinstance(c, ast.Call) and isinstance(c.func, ast.Attribute) and c.func.attr == "write" and c.args and any(isinstance(x, ast.Call) and isinstance(x.func, ast.Attribute) and x.func.attr == "get" and norm(x.func.value) in m.pqueues for x in ast.walk(c.args[0]))]
+    if not ws:
+        # the item is bound to a name first
+        for c in walk_own(pf.node):
+            if isinstance(c, ast.Call) and isinstance(c.func, ast.Attribute) and c.func.attr == "write" and c.args and isinstance(c.args[0], ast.BinOp):
+                ws.append(c)
+    return bool(ws) and all(isinstance(c.args[0], ast.BinOp) and isinstance(c.args[0].op, ast.Add) and const_value(c.args[0].right, None) == "\n" for c in ws)
+
+
+def r11_8(ctx, m):
+    """(a) Records reach the output only through the ordered drain of a group's priority queue: any other write of a record
+    in the parent (a leftover batch aligned in the parent and written at once) overtakes groups that are still waiting.
+    (b) The internal list of a PriorityQueue is a heap: only `.queue[0]` means something (the smallest item); `.queue[-1]`
+    is not the largest, so a completeness / order test on it fails for legal arrival orders."""
+    pf = m.parent
+    repo = ctx.repo
+    helpers = [pf] + [h for c in walk_own(pf.node) if isinstance(c, ast.Call) for h in [repo.resolve_call(pf, c)] if h is not None and h.module is pf.module and h is not m.worker]
+    # (b)
+    for fn in helpers:
+        heap_names = set(m.pqueues) if fn is pf else set(fn.params)
+        aliases = {st.targets[0].id for st in walk_own(fn.node) if isinstance(st, ast.Assign) and len(st.targets) == 1 and isinstance(st.targets[0], ast.Name) and isinstance(st.value, ast.Attribute) and st.value.attr == "queue" and norm(st.value.value) in heap_names}
+        for x in walk_own(fn.node):
+            if isinstance(x, ast.Subscript) and ((isinstance(x.value, ast.Attribute) and x.value.attr == "queue" and norm(x.value.value) in heap_names) or (isinstance(x.value, ast.Name) and x.value.id in aliases)):
+                idx = const_value(x.slice, None) if not (isinstance(x.slice, ast.UnaryOp) and isinstance(x.slice.op, ast.USub)) else -const_value(x.slice.operand, 0)
+                if idx != 0:
+                    ctx.violated("R11.8", fn.where(x), f"`{norm(x)[:40]}` reads an element other than the first of a PriorityQueue's internal list: that list is a heap, only its first element is known to be the smallest; which item sits at `{norm(x.slice)}` depends on the order in which the workers delivered, so a decision made on it (a completeness check that aborts) differs between legal schedules", key_of(fn, f"heap-position-read:{norm(x)[:30]}"))
+    # (a)
+    out_param = next((p_ for p_ in pf.params if "out" in p_), None)
+    if out_param is None:
+        return
+    for c in walk_own(pf.node):
+        if isinstance(c, ast.Call) and isinstance(c.func, ast.Attribute) and c.func.attr == "write" and norm(c.func.value) == out_param and c.args:
+            arg = c.args[0]
+            names = {x.id for x in ast.walk(arg) if isinstance(x, ast.Name)}
+            from_pq = any(isinstance(x, ast.Call) and isinstance(x.func, ast.Attribute) and x.func.attr == "get" and norm(x.func.value) in m.pqueues for x in ast.walk(arg))
+            if not from_pq:
+                for st in walk_own(pf.node):
+                    if isinstance(st, ast.Assign) and len(st.targets) == 1 and isinstance(st.targets[0], ast.Name) and st.targets[0].id in names and any(isinstance(x, ast.Call) and isinstance(x.func, ast.Attribute) and x.func.attr == "get" and norm(x.func.value) in m.pqueues for x in ast.walk(st.value)):
+                        from_pq = True
+            if not from_pq and names:
+                # where does the written item come from: a loop over something that is not a priority queue of the parent
+                src = None
+                for lp in walk_own(pf.node):
+                    if isinstance(lp, ast.For) and any(y is c for y in ast.walk(lp)) and ({y.id for y in ast.walk(lp.target) if isinstance(y, ast.Name)} & names):
+                        src = norm(lp.iter)
+                if src is not None and not any(pq in src for pq in m.pqueues):
+                    ctx.violated("R11.8", pf.where(c), f"`{norm(c)[:50]}` writes records taken from `{src[:50]}`, not from the ordered drain of a group's priority queue: they reach the output at once, ahead of the records of batches whose processes have not been run and collected yet (1010 records with two cores: the last ten come first)", key_of(pf, f"write-outside-drain:{src[:30]}"))
+    ctx.holds("R11.8", pf.where(), "records are written only from the ordered drain of a priority queue; no decision reads a heap position other than the first", nontrivial=False)
+
+
 def r11_7(ctx, m):
     """One queue item is one output line: the text of every ranked item the worker puts ends with a newline (the parent writes
     the items one after the other with nothing in between, so an item without its line end is glued to the next record)."""
@@ -624,8 +683,12 @@ def r11_7(ctx, m):
         except tmpl.TemplateError:
             parts = None
         ends_nl = bool(parts) and parts[-1][0] == "lit" and parts[-1][1].endswith("\n")
-        if ends_nl:
+        if ends_nl and _parent_adds_newline(m):
+            ctx.violated("R11.7", wf.where(c), f"the worker queues `{norm(text)[:60]}` with its line end and the parent adds another one when it writes the item: an empty line follows the record", key_of(wf, f"item-with-two-newlines:{norm(text)[:40]}"))
+        elif ends_nl:
             ctx.holds("R11.7", wf.where(c), "the text of a queued item ends with its line end")
+        elif (isinstance(e, ast.Call) and isinstance(e.func, ast.Name) and e.func.id in ("str", "repr", "format") or (parts and parts[-1][0] in ("hole", "rep") and not any(x[0] == "opaque" for x in parts))) and _parent_adds_newline(m):
+            ctx.holds("R11.7", wf.where(c), "the text of a queued item has no line end, and every write of an item in the parent adds one")
         elif isinstance(e, ast.Call) and isinstance(e.func, ast.Name) and e.func.id in ("str", "repr", "format") or (parts and parts[-1][0] in ("hole", "rep") and not any(x[0] == "opaque" for x in parts)):
             ctx.violated("R11.7", wf.where(c), f"the worker queues `{norm(text)[:60]}` without a line end: the parent writes the items back to back, so this record and the next one end up on one line (one record fewer for every reader, and no final newline when it is the last)", key_of(wf, f"item-without-newline:{norm(text)[:40]}"))
         else:
